@@ -11,10 +11,15 @@
                 a + zero(a))
      sc / arity no Count with a non-identity transform; children lists have the arity of their
                 primitive, IrregularlyBin thresholds cover the line (irr_total)
-   Not covered (checked on the implementation and by the bit-exact correspondence only): the
-   binary64 half - that every double is routed to exactly one bin (see DESIGN.md section 6 C05). *)
+   Every instance, binary64 included (C05_one_slot_any, C05_one_slot_exactly, C05_one_slot_f64):
+   whenever the routing of a partition primitive succeeds the datum is handed with its whole
+   weight to exactly one slot (one bin / flow, or one sparse key) and to no other - for every
+   double incl. NaN, +-inf and the neighbours of every edge, whatever the rounding does.
+   Not covered by a theorem (decided by the bit-exact correspondence and the +-ulp edge probes
+   only): totality in binary64 - that routing a double never raises (see DESIGN.md section 6 C05). *)
 From Coq Require Import List QArith Qcanon.
 From Hgm Require Import NumOps Xq Agg Ops XqFacts LeafAlg Algebra MulAlg Stream StackLists Invariant.
+From Hgm Require Import F64 RouteAny.
 Import ListNotations.
 
 Theorem C05_inv_zero : forall a : agg Xq, inv (zero a).
@@ -53,7 +58,43 @@ Theorem C05_one_bin : forall (k : nodekind Xq) n v w ws sk,
   ((sk = None /\ wsum ws = w) \/ (exists k1 : key, sk = Some (k1, w) /\ wsum ws = XF 0%Qc)).
 Proof. exact route_part. Qed.
 
+(* every arithmetic instance: a successful routing names exactly one slot *)
+Theorem C05_one_slot_any : forall (N : num_ops) (k : nodekind N) n v w ws sk,
+  route k n v w = RTo ws sk ->
+  match k with
+  | KBin _ _ => (3 <= n)%nat -> sk = None /\ one_slot n w ws
+  | KSparse _ _ => n = 1%nat ->
+      (sk = None /\ one_slot n w ws) \/ (exists b, sk = Some (KInt b, w) /\ no_slot n ws)
+  | KCentral cs => n = S (List.length cs) -> cs <> [] -> sk = None /\ one_slot n w ws
+  | KIrr ths => n = S (List.length ths) -> sk = None /\ (one_slot n w ws \/ no_slot n ws)
+  | KCat => n = 0%nat -> exists k1, sk = Some (k1, w) /\ no_slot n ws
+  | _ => True
+  end.
+Proof. intro N. exact (@route_one_slot_any N). Qed.
+
+Theorem C05_one_slot_exactly : forall (N : num_ops) n (w : T N) ws, one_slot n w ws ->
+  List.length ws = n /\
+  exists i, (i < n)%nat /\ nth i ws None = Some w /\
+            forall j, (j < n)%nat -> j <> i -> nth j ws None = None.
+Proof. intro N. exact (@one_slot_exactly N). Qed.
+
+(* the binary64 reading for Bin: no double is counted in two bins (the defect repaired in
+   Bin._numpy counted x == high twice; the row path cannot) *)
+Theorem C05_one_slot_f64 : forall (low high : T F64) num v w ws sk,
+  route (KBin low high) (num + 3) v w = RTo ws sk ->
+  sk = None /\ List.length ws = (num + 3)%nat /\
+  exists i, (i < num + 3)%nat /\ nth i ws None = Some w /\
+            forall j, (j < num + 3)%nat -> j <> i -> nth j ws None = None.
+Proof.
+  intros low high num v w ws sk E.
+  destruct (@route_one_slot_any F64 (KBin low high) _ v w ws sk E) as [Hs H1]; [apply Nat.le_add_l|].
+  split; [exact Hs|]. apply one_slot_exactly. exact H1.
+Qed.
+
 Print Assumptions C05_inv_zero.
+Print Assumptions C05_one_slot_any.
+Print Assumptions C05_one_slot_exactly.
+Print Assumptions C05_one_slot_f64.
 Print Assumptions C05_stack.
 Print Assumptions C05_inv_fill.
 Print Assumptions C05_inv_add.
@@ -72,3 +113,13 @@ Proof.
   split; [|constructor].
   vm_compute. repeat split; try reflexivity; try exact I; repeat constructor.
 Qed.
+
+(* non-vacuity in binary64: Bin(10, -3, 7) routes pred(7.0) = 0x1.bffffffffffffp+2 (the double on
+   which the pinned code raised IndexError before the clamp) to the last regular bin, and 7.0
+   itself to the overflow only *)
+Example C05_f64_example :
+  route (KBin (ndy (-3) 0) (ndy 7 0)) 13 (VNum (ndy 7881299347898367 (-50))) (ndy 1 0)
+    = RTo (@only F64 13 9 (ndy 1 0)) None /\
+  route (KBin (ndy (-3) 0) (ndy 7 0)) 13 (VNum (ndy 7 0)) (ndy 1 0)
+    = RTo (@only F64 13 11 (ndy 1 0)) None.
+Proof. split; vm_compute; reflexivity. Qed.
